@@ -24,21 +24,50 @@ theorem repeat_noop (s : KState) (p : String) (c : Key) (role : FileRole)
   simp [KState.checkDeclaration, h, pure, Except.pure]
 
 /-- Any other declaration of a claimed path is rejected: another creator, or the same creator
-in another role. -/
+in another role.  (Rejected with which error: see `collision_is_graph_error` and
+`collision_by_tree_internal_error`.) -/
 theorem collision_rejected (s : KState) (p : String) (c k : Key) (r role : FileRole)
     (h : s.existingClaim p = some (r, c)) (hne : ¬ (r = role ∧ c = k)) :
+    ∃ e, s.checkDeclaration (some k) p role = .error e := by
+  simp only [KState.checkDeclaration, h]
+  rw [if_neg hne]
+  split
+  · exact ⟨_, rfl⟩
+  · split
+    · exact ⟨_, rfl⟩
+    · exact ⟨_, rfl⟩
+
+/-- Between declarers a plan author can be pointed at (steps and the root), the rejection is the
+user-facing `GraphError`. -/
+theorem collision_is_graph_error (s : KState) (p : String) (c k : Key) (r role : FileRole)
+    (h : s.existingClaim p = some (r, c)) (hne : ¬ (r = role ∧ c = k))
+    (hk : k.kind ≠ .st) (hc : c.kind ≠ .st) :
     ∃ msg, s.checkDeclaration (some k) p role = .error (.graph msg) := by
   refine ⟨"claim collision", ?_⟩
   simp only [KState.checkDeclaration, h]
-  rw [if_neg hne]
+  rw [if_neg hne, if_neg hk, if_neg (fun h => hc h.1)]
+  rfl
+
+/-- The code's collision message has no phrase for a static tree (`_creator_phrase`): when the
+declarer is a tree (a static file handed over to its owning tree) and the path is claimed by
+someone else, the rejection is an internal `ConsistencyError` instead of a `GraphError`.  A
+reachable state with such a claim is the known finding `tree-reattached-by-recycle` (C08). -/
+theorem collision_by_tree_internal_error (s : KState) (p : String) (c k : Key) (r role : FileRole)
+    (h : s.existingClaim p = some (r, c)) (hne : ¬ (r = role ∧ c = k)) (hk : k.kind = .st) :
+    s.checkDeclaration (some k) p role = .error .consistency := by
+  simp only [KState.checkDeclaration, h]
+  rw [if_neg hne, if_pos hk]
   rfl
 
 /-- A declaration by a node that does not exist yet (a step being defined) collides with every
 existing claim. -/
 theorem new_step_collides (s : KState) (p : String) (c : Key) (r role : FileRole)
     (h : s.existingClaim p = some (r, c)) :
-    ∃ msg, s.checkDeclaration none p role = .error (.graph msg) := by
-  exact ⟨"claim collision", by simp [KState.checkDeclaration, h]; rfl⟩
+    ∃ e, s.checkDeclaration none p role = .error e := by
+  simp only [KState.checkDeclaration, h]
+  split
+  · exact ⟨_, rfl⟩
+  · exact ⟨_, rfl⟩
 
 /-- **Either order**: let declaration A = (roleA by cA) hold the path in state `sA` and
 declaration B = (roleB by cB) hold it in state `sB`.  Then B arriving after A is rejected exactly
@@ -46,8 +75,8 @@ when A arriving after B is: whether two declarations of one path conflict does n
 which of them is already in the graph. -/
 theorem file_conflict_symmetric (sA sB : KState) (p : String) (cA cB : Key) (rA rB : FileRole)
     (hA : sA.existingClaim p = some (rA, cA)) (hB : sB.existingClaim p = some (rB, cB)) :
-    (∃ msg, sA.checkDeclaration (some cB) p rB = .error (.graph msg)) ↔
-      (∃ msg, sB.checkDeclaration (some cA) p rA = .error (.graph msg)) := by
+    (∃ e, sA.checkDeclaration (some cB) p rB = .error e) ↔
+      (∃ e, sB.checkDeclaration (some cA) p rA = .error e) := by
   by_cases hsame : rA = rB ∧ cA = cB
   · obtain ⟨rfl, rfl⟩ := hsame
     constructor
